@@ -59,6 +59,34 @@ DescJson(d) ==
    aux |-> d.aux, meta |-> d.meta]
 
 (***************************************************************************)
+(* Declared degrees and the bounds the AIR context enforces (records with   *)
+(* fields log_len, width, shapes, pcyc, aux, exemptions)                    *)
+(***************************************************************************)
+DMax(a, b) == IF a > b THEN a ELSE b
+RECURSIVE DNextPow2From(_, _)
+DNextPow2From(n, p) == IF p >= n THEN p ELSE DNextPow2From(n, 2 * p)
+DLen(c) == 2 ^ c.log_len
+DHasAux(c) == c.aux # <<>>
+CycleDeg(c, k) == (DLen(c) \div c.pcyc[k]) * (c.pcyc[k] - 1)
+MainEvalDegree(c, j) ==
+  LET sh == c.shapes[j] IN
+  ShapeBase(sh) * (DLen(c) - 1)
+    + (IF ShapeNumCycles(sh) >= 1 THEN CycleDeg(c, 1) ELSE 0)
+    + (IF ShapeNumCycles(sh) >= 2 THEN CycleDeg(c, 2) ELSE 0)
+MainMinBlowup(c, j) == DMax(DNextPow2From(ShapeBase(c.shapes[j]) + ShapeNumCycles(c.shapes[j]) - 1, 1), 2)
+AuxEvalDegree(c) == 2 * (DLen(c) - 1)
+RECURSIVE MaxOver(_, _, _)
+MaxOver(F(_), n, i) == IF i > n THEN 0 ELSE DMax(F(i), MaxOver(F, n, i + 1))
+CeBlowup(c) == LET m(j) == MainMinBlowup(c, j) IN DMax(MaxOver(m, c.width, 1), IF DHasAux(c) THEN 2 ELSE 0)
+MaxEvalDegree(c) == LET e(j) == MainEvalDegree(c, j) IN DMax(MaxOver(e, c.width, 1), IF DHasAux(c) THEN AuxEvalDegree(c) ELSE 0)
+\* AirContext::set_num_transition_exemptions
+ExemptionsOk(c) ==
+  /\ c.exemptions >= 1
+  /\ c.exemptions <= DLen(c) \div 2 + 1
+  /\ \A j \in 1..c.width : c.exemptions <= (DLen(c) * CeBlowup(c) - 1) + DLen(c) - MainEvalDegree(c, j)
+  /\ DHasAux(c) => c.exemptions <= (DLen(c) * CeBlowup(c) - 1) + DLen(c) - AuxEvalDegree(c)
+
+(***************************************************************************)
 (* Meaning over a toy field P                                              *)
 (***************************************************************************)
 RECURSIVE TermProd(_, _, _, _, _)
@@ -114,4 +142,58 @@ TransitionsHold(P, d, rows) ==
   LET L == 2 ^ d.log_len IN
   \A s \in 0..(L - d.exemptions - 1) : rows[s + 2] = NextRow(P, d, rows[s + 1], s)
 ValidMain(P, d, rows, vals) == AssertionsHold(d, rows, vals) /\ TransitionsHold(P, d, rows)
+
+(***************************************************************************)
+(* Auxiliary segment (running products) over a toy field, base-field rands *)
+(***************************************************************************)
+\* aux rows as a sequence of rows; a[m][0] = 1, a[m][i+1] = a[m][i] * (main[src[m]][i] + r[m % rands])
+RECURSIVE AuxRowsFrom(_, _, _, _, _, _)
+AuxRowsFrom(P, ad, rows, rands, cur, i) ==
+  IF i > Len(rows) THEN <<>>
+  ELSE <<cur>> \o AuxRowsFrom(P, ad, rows, rands,
+                    [m \in 1..ad.width |-> FMul(P, cur[m], FAdd(P, rows[i][ad.src[m] + 1], rands[((m - 1) % ad.rands) + 1]))],
+                    i + 1)
+HonestAuxRows(P, d, rows, rands) ==
+  AuxRowsFrom(P, d.aux[1], rows, rands, [m \in 1..d.aux[1].width |-> 1], 1)
+ValidAux(P, d, rows, arows, rands) ==
+  LET ad == d.aux[1]  L == 2 ^ d.log_len IN
+  /\ \A m \in 1..ad.width : arows[1][m] = 1
+  /\ \A s \in 0..(L - d.exemptions - 1) : \A m \in 1..ad.width :
+        arows[s + 2][m] = FMul(P, arows[s + 1][m], FAdd(P, rows[s + 1][ad.src[m] + 1], rands[((m - 1) % ad.rands) + 1]))
+
+(***************************************************************************)
+(* Corruptions of the honest trace and their structural classification     *)
+(***************************************************************************)
+\* corruption: [kind, col, row, delta, idx]; kinds: none | cell | row | col | pub | aux
+ApplyCorruption(P, d, rows, k) ==
+  CASE k.kind = "cell" -> [i \in 1..Len(rows) |-> [j \in 1..d.width |->
+                              IF i = k.row + 1 /\ j = k.col + 1 THEN FAdd(P, rows[i][j], k.delta % P) ELSE rows[i][j]]]
+    [] k.kind = "row"  -> [i \in 1..Len(rows) |-> [j \in 1..d.width |->
+                              IF i = k.row + 1 THEN FAdd(P, rows[i][j], (k.delta + j - 1) % P) ELSE rows[i][j]]]
+    [] k.kind = "col"  -> [i \in 1..Len(rows) |-> [j \in 1..d.width |->
+                              IF j = k.col + 1 THEN FAdd(P, rows[i][j], (k.delta + i - 1) % P) ELSE rows[i][j]]]
+    [] OTHER -> rows
+
+AllAssertedCells(d) == UNION {ACells(d.asserts[i], 2 ^ d.log_len) : i \in 1..Len(d.asserts)}
+
+\* Structural classification, valid in EVERY field whose characteristic exceeds the deltas used:
+\*  - a changed cell in a row that is the `next` row of a non-exempt step (rows 1 .. L - e) breaks the
+\*    constraint of its own column at that step, because next[c] moved and F_c(previous row) did not;
+\*  - a changed asserted cell breaks the assertion;
+\*  - a change confined to rows L-e+1 .. L-1 (never a `next` row of a constrained step, `current` row of
+\*    exempt steps only) in un-asserted cells leaves the instance satisfied.
+CertainUnsat(d, k) ==
+  LET L == 2 ^ d.log_len IN
+  CASE k.kind = "cell" -> (k.delta % 97 # 0) /\ ((k.row >= 1 /\ k.row <= L - d.exemptions) \/ <<k.col, k.row>> \in AllAssertedCells(d))
+    [] k.kind = "row"  -> (k.row >= 1 /\ k.row <= L - d.exemptions)
+    [] k.kind = "col"  -> \E s \in 0..(L - 1) : <<k.col, s>> \in AllAssertedCells(d) /\ (k.delta + s) % 97 # 0
+    [] k.kind = "pub"  -> TRUE
+    [] k.kind = "aux"  -> k.row <= L - d.exemptions
+    [] OTHER -> FALSE
+CertainSat(d, k) ==
+  LET L == 2 ^ d.log_len IN
+  CASE k.kind = "none" -> TRUE
+    [] k.kind = "cell" -> k.row > L - d.exemptions /\ <<k.col, k.row>> \notin AllAssertedCells(d)
+    [] k.kind = "row"  -> k.row > L - d.exemptions /\ \A j \in 0..(d.width - 1) : <<j, k.row>> \notin AllAssertedCells(d)
+    [] OTHER -> FALSE
 =============================================================================
